@@ -126,6 +126,56 @@ def value_tol(c, obj, ts):
     return vb * 1e-11 + 1e-300
 
 
+class Snap:
+    """The basis an object publishes at some moment."""
+    def __init__(self, o):
+        self.freqs, self.amps, self.phases, self.rms = (np.array(o.freqs, dtype=float), np.array(o.amps, dtype=float),
+                                                        np.array(o.phases, dtype=float), float(o.rms))
+
+
+def gen_assignment(rng, c, o):
+    """A new value for a non-empty subset of the assignable basis attributes (amps, phases, rms; freqs too for
+    the Full variant, whose waveform is computed from self.freqs).  Amplitudes at a zero frequency stay zero,
+    as in every basis a constructor publishes."""
+    n = len(o.freqs)
+    names = ["amps", "phases", "rms"] + (["freqs"] if c["cls"] == "full" else [])
+    k = rng.choice([1, 1, 2, 2, 3, len(names)])
+    chosen = rng.sample(names, min(k, len(names)))
+    new = {}
+    for name in chosen:
+        if name == "amps":
+            a = [rng.choice([1.0, rng.uniform(0.05, 3.0)]) for _ in range(n)]
+            f = np.asarray(new.get("freqs", o.freqs), dtype=float)
+            new["amps"] = [0.0 if f[i] == 0 else a[i] for i in range(n)]
+        elif name == "phases":
+            new["phases"] = [rng.uniform(0, 2 * math.pi) for _ in range(n)]
+        elif name == "rms":
+            new["rms"] = float(o.rms) * rng.choice([0.5, 2.0, 3.0, rng.uniform(0.1, 10)])
+        else:
+            lo, hi = c["fmin"], c["fmax"]
+            new["freqs"] = sorted(lo + (hi - lo) * rng.uniform(0.01, 0.99) for _ in range(n))
+    return new
+
+
+def assign(o, new):
+    for name, v in new.items():
+        setattr(o, name, np.array(v, dtype=float) if name != "rms" else float(v))
+
+
+def run_history(c, hist):
+    """build(c); evaluate; then for each step: assign, evaluate with_times(step ts).  Returns the object and the
+    list of value arrays (one per step)."""
+    o, _ = build(c)
+    np.asarray(o.values)
+    t = c["times"]
+    np.asarray(o.with_times(np.array(t[:max(2, len(t) // 2)])).values)
+    outs = []
+    for st in hist:
+        assign(o, st["assign"])
+        outs.append(np.asarray(o.with_times(np.array(st["ts"])).values, dtype=float))
+    return o, outs
+
+
 # ----------------------------------------------------------------------------- generator
 def gen_case(rng, cls, big=False):
     u = rng.random()
@@ -285,6 +335,31 @@ def correspondence(ctx, exe, count):
         for wname, ts in wins.items():
             lines.append(model_lines(c, obj.freqs, obj.amps, obj.phases, obj.rms, ts))
             plan.append((c, obj, "values", wname, ts))
+        # history on a second, identical object: evaluate -> assign part of the basis -> evaluate again ...;
+        # every evaluation is compared with the model evaluated from the basis published at that moment
+        if len(obj.freqs) and rng.random() < 0.6:
+            hist = []
+            shadow = Snap(obj)
+            wl = [w for w in wins.values()]
+            for _ in range(rng.randint(1, 3)):
+                new = gen_assignment(rng, c, shadow)
+                for k2, v2 in new.items():
+                    setattr(shadow, k2, np.array(v2, dtype=float) if k2 != "rms" else float(v2))
+                hist.append({"assign": new, "ts": rng.choice(wl)})
+            try:
+                hobj, houts = run_history(c, hist)
+            except Exception as e:
+                lim.fail("history", "corr:%s:history:exception" % tag, "evaluate/assign/evaluate history raised %s: %s; case %s" % (type(e).__name__, e, short(c)),
+                         {"kind": "corr", "case": c, "history": hist})
+                continue
+            dist["history:" + c["cls"]] = dist.get("history:" + c["cls"], 0) + 1
+            cur = Snap(obj)
+            for i, st in enumerate(hist):
+                for k2, v2 in st["assign"].items():
+                    setattr(cur, k2, np.array(v2, dtype=float) if k2 != "rms" else float(v2))
+                snap = Snap(cur)
+                lines.append(model_lines(c, snap.freqs, snap.amps, snap.phases, snap.rms, st["ts"]))
+                plan.append((c, snap, "history", (i, hist, houts[i]), st["ts"]))
     try:
         outs = dft_extract.run_lines(exe, lines)
     except Exception as e:
@@ -316,6 +391,20 @@ def correspondence(ctx, exe, count):
             if impl.shape != model.shape or not np.array_equal(impl, model):
                 lim.fail("amps", "corr:%s:amps" % tag, "published amps differ from the amplitude specification with the DC bin zeroed; case %s" % short(c),
                          {"kind": "corr", "case": c})
+        elif what == "history":
+            i, hist, impl = wname
+            tol = value_tol(c, obj, ts)
+            nvals += len(ts)
+            d = float(np.max(np.abs(impl - model))) if len(ts) and impl.shape == model.shape else float("inf")
+            if tol > 1e-290 and d < float("inf"):
+                worst = max(worst, d / tol)
+            if not d <= tol:
+                j = int(np.argmax(np.abs(impl - model))) if impl.shape == model.shape else 0
+                lim.fail("history", "corr:%s:history" % tag,
+                         "%s: after evaluating, assigning %s and evaluating again (step %d of the history) with_times(...).values is not the waveform of the "
+                         "basis the object now publishes: |impl-model|=%.3g > %.3g at t=%r (impl %r, model %r); case %s"
+                         % (c["cls"], "+".join(sorted(hist[i]["assign"])), i + 1, d, tol, ts[j], impl[j] if impl.shape == model.shape else None,
+                            model[j] if len(model) else None, short(c)), {"kind": "corr", "case": c, "history": hist[:i + 1], "ts": ts})
         else:
             try:
                 if wname == "own" and len(ts) == len(c["times"]):
@@ -462,6 +551,65 @@ def probes(ctx, count):
             if not np.array_equal(np.asarray(twin.values), own) or not np.array_equal(np.asarray(twin.with_times(np.array(w1)).values), np.asarray(obj.with_times(np.array(w1)).values)):
                 lim.fail("basis-copy", "probe:%s:basis-copy" % tag, "copying freqs/amps/phases/rms into a second object does not reproduce the waveform; case %s" % short(c),
                          dict(base, relation="basis-copy"))
+            # (d') evaluate -> assign -> evaluate: an object that has already produced values is given another
+            # basis (the stored one of `obj`, or a new part of it); whatever it returns afterwards must be the
+            # waveform of the basis it publishes NOW (cosine-sum oracle) and, with obj's basis, obj's waveform
+            if len(obj.freqs) and vb > 0:
+                stats["reassign"] = stats.get("reassign", 0) + 1
+                np.asarray(other.with_times(np.array(w1)).values)       # `other` was evaluated above as well
+                other.amps, other.phases = np.array(obj.amps), np.array(obj.phases)
+                if cls == "full":
+                    other.freqs = np.array(obj.freqs)
+                for wname_, w_ in (("own grid", list(t)), ("shifted window", w1)):
+                    got_ = np.asarray(other.with_times(np.array(w_)).values)
+                    ref_ = np.asarray(obj.with_times(np.array(w_)).values)
+                    if not float(np.max(np.abs(got_ - ref_))) <= vb * 1e-12:
+                        lim.fail("reassign", "probe:%s:reassign-same-basis" % tag,
+                                 "an already evaluated %s object given the amps/phases of another one does not reproduce that one's waveform on the %s "
+                                 "(max diff %.3g, scale %.3g): same basis, different waveform; case %s" % (cls, wname_, float(np.max(np.abs(got_ - ref_))), vb, short(c)),
+                                 dict(base, relation="reassign", donor_seed=c["seed"], ts=w_))
+                        break
+                new = gen_assignment(rng, c, other)
+                assign(other, new)
+                lat2 = lat if cls == "fft" else list(t)
+                got_ = np.asarray(other.with_times(np.array(lat2)).values)
+                ora_ = cos_oracle(other, cls, t0, lat2)
+                tol_ = lattice_tol(c, other, lat2)
+                if not float(np.max(np.abs(got_ - ora_))) <= tol_:
+                    lim.fail("reassign-oracle", "probe:%s:reassign-cosine-sum" % tag,
+                             "%s: after evaluate -> assign %s -> evaluate the waveform is not the cosine sum of the basis the object publishes now "
+                             "(max diff %.3g > %.3g); case %s" % (cls, "+".join(sorted(new)), float(np.max(np.abs(got_ - ora_))), tol_, short(c)),
+                             dict(base, relation="reassign", assign=new, ts=lat2))
+            # (h') a stored basis restored onto an antenna / antenna system whose master has already been evaluated
+            if it % 2 == 1 and cls == "fft" and len(obj.freqs) and vb > 0:
+                stats["antenna-restore"] = stats.get("antenna-restore", 0) + 1
+                for kind_ in ("Antenna", "AntennaSystem"):
+                    kw_ = dict(position=(0, 0, 0), freq_range=(c["fmin"], c["fmax"]), noise_rms=obj.rms, unique_noise_waveforms=max(1, int(c["uf"])))
+                    if kind_ == "Antenna":
+                        holder = ant_ = pyrex.Antenna(**kw_)
+                    else:
+                        holder = pyrex.AntennaSystem(pyrex.Antenna)
+                        holder.setup_antenna(**kw_)
+                        ant_ = holder.antenna
+                    np.random.seed(c["seed"] ^ 0x1234)
+                    np.asarray(holder.make_noise(np.array(t)).values)    # creates and evaluates the master
+                    master = ant_._noise_master
+                    donor_amps = np.array([0.0 if f == 0 else rng.uniform(0.1, 2.0) for f in master.freqs])
+                    donor_phases = np.array([rng.uniform(0, 2 * math.pi) for _ in master.freqs])
+                    master.amps, master.phases = donor_amps, donor_phases
+                    mt0 = float(master.times[0])
+                    mdt = float(master.times[1] - master.times[0])
+                    wq = [mt0 + (sh + i) * mdt for i in range(0, n + 5)]
+                    got_ = np.asarray(holder.make_noise(np.array(wq)).values)
+                    cm = dict(c, times=[float(x) for x in master.times])
+                    ora_ = cos_oracle(master, "fft", mt0, wq)
+                    tol_ = lattice_tol(cm, master, wq)
+                    if not float(np.max(np.abs(got_ - ora_))) <= tol_:
+                        lim.fail("antenna-restore", "probe:%s:%s-restore-basis" % (tag, kind_),
+                                 "%s.make_noise after assigning amps/phases to its (already evaluated) noise master is not the cosine sum of the master's "
+                                 "published basis (max diff %.3g > %.3g); case %s" % (kind_, float(np.max(np.abs(got_ - ora_))), tol_, short(c)),
+                                 dict(base, relation="antenna-restore", holder=kind_, amps=list(donor_amps), phases=list(donor_phases), ts=wq))
+                        break
             # (h) Antenna.make_noise: one master, with_times for every request
             if it % 4 == 0 and cls == "fft":
                 ant = pyrex.Antenna(position=(0, 0, 0), freq_range=(c["fmin"], c["fmax"]), noise_rms=obj.rms, unique_noise_waveforms=max(1, int(c["uf"])))
@@ -535,6 +683,50 @@ def replay(ctx, obj):
     print("published amps :", np.asarray(o.amps)[:8])
     print("rms:", o.rms)
     ts = obj.get("ts") or obj.get("w1") or c["times"]
+    if obj.get("history"):
+        o, houts = run_history(c, [dict(st, ts=st.get("ts", ts)) for st in obj["history"]])
+        print("history: build, evaluate values and a sub-window, then " + "; ".join("assign %s, evaluate" % "+".join(sorted(st["assign"])) for st in obj["history"]))
+        print("basis published now: amps", np.asarray(o.amps)[:6], "phases", np.asarray(o.phases)[:6], "rms", o.rms)
+    elif obj.get("relation") == "reassign":
+        from pyrex.signals import FFTThermalNoise, FullThermalNoise
+        cls_ = FFTThermalNoise if c["cls"] == "fft" else FullThermalNoise
+        np.random.seed(c["seed"] ^ 0x5555)
+        other = cls_(np.array(c["times"]), (c["fmin"], c["fmax"]), f_amplitude=amp_spec(c["amp"], c["ampc"]), uniqueness_factor=c["uf"], rms_voltage=o.rms)
+        np.asarray(other.values)
+        np.asarray(other.with_times(np.array(c["times"][:max(2, len(c["times"]) // 2)])).values)
+        other.amps, other.phases = np.array(o.amps), np.array(o.phases)
+        if c["cls"] == "full":
+            other.freqs = np.array(o.freqs)
+        print("history: a second object is built and evaluated, then given the amps/phases of the first" +
+              ("; evaluated; then assigned %s" % "+".join(sorted(obj["assign"])) if obj.get("assign") else ""))
+        ref = np.asarray(o.with_times(np.array(ts)).values)
+        if obj.get("assign"):
+            np.asarray(other.with_times(np.array(ts)).values)
+            assign(other, obj["assign"])
+        else:
+            print("first object's waveform on these times       :", ref[:12])
+        o = other
+    elif obj.get("relation") == "antenna-restore":
+        import pyrex
+        kw_ = dict(position=(0, 0, 0), freq_range=(c["fmin"], c["fmax"]), noise_rms=o.rms, unique_noise_waveforms=max(1, int(c["uf"])))
+        if obj.get("holder") == "Antenna":
+            holder = ant_ = pyrex.Antenna(**kw_)
+        else:
+            holder = pyrex.AntennaSystem(pyrex.Antenna)
+            holder.setup_antenna(**kw_)
+            ant_ = holder.antenna
+        np.random.seed(c["seed"] ^ 0x1234)
+        np.asarray(holder.make_noise(np.array(c["times"])).values)
+        m_ = ant_._noise_master
+        m_.amps, m_.phases = np.array(obj["amps"]), np.array(obj["phases"])
+        got_ = np.asarray(holder.make_noise(np.array(ts)).values)
+        ora_ = cos_oracle(m_, "fft", float(m_.times[0]), ts)
+        print("%s.make_noise after restoring a basis onto the evaluated master:" % obj.get("holder"), got_[:8])
+        print("cosine sum of the master's published basis                     :", ora_[:8])
+        d_ = float(np.max(np.abs(got_ - ora_)))
+        tol_ = lattice_tol(dict(c, times=[float(x) for x in m_.times]), m_, ts)
+        print("max diff %.3g, tolerance %.3g -> %s" % (d_, tol_, "AGREE" if d_ <= tol_ else "DISAGREE"))
+        return 0 if d_ <= tol_ else 1
     impl = np.asarray(o.with_times(np.array(ts)).values)
     print("implementation with_times(ts).values:", impl[:12])
     ora = cos_oracle(o, c["cls"], c["times"][0], ts)
@@ -564,7 +756,8 @@ def replay(ctx, obj):
         print("model amps :", ma[:8], "-> %s" % ("AGREE" if oka else "DISAGREE"))
         rayleigh_ok = c["amp"] != "rayleigh" or [x[1] for x in calls if x[0] == "rayleigh"] == [1 / np.sqrt(2)]
         print("numpy.random calls:", calls, "" if rayleigh_ok else "-> default amplitudes are not Rayleigh(1/sqrt 2)")
-        rc = rc or (0 if (okf and okr and oka and rayleigh_ok) else 1)
+        mutated = bool(obj.get("history") or obj.get("relation") == "reassign")   # the basis was re-assigned on purpose
+        rc = rc or (0 if (mutated or (okf and okr and oka and rayleigh_ok)) else 1)
     if obj.get("relation") in ("antenna", "exception") and c["cls"] == "fft":
         import pyrex
         try:
